@@ -176,7 +176,9 @@ def run_model(cases, workdir, tag='cases', timeout=900):
             for c in sh:
                 f.write(c.text())
         out = open(path + '.out', 'wb')
-        procs.append((subprocess.Popen([os.path.join(BUILD, 'mxmodel'), path], stdout=out, stderr=subprocess.PIPE), out, path))
+        # deep symbolic expressions (long histories of products) need a deep stack in the extracted code
+        procs.append((subprocess.Popen(['sh', '-c', 'ulimit -s unlimited 2>/dev/null || ulimit -s 1000000 2>/dev/null; exec "$0" "$1"',
+                                        os.path.join(BUILD, 'mxmodel'), path], stdout=out, stderr=subprocess.PIPE), out, path))
     blocks = {}
     t0 = time.time()
     for pr, out, path in procs:
